@@ -16,6 +16,30 @@ import warnings
 
 MAX_OPS = 10
 SPLIT_NAMES = ['train', 'val', 'test']
+# above this many rows (of the frame or of one index argument) a history is judged by the direct oracle only:
+# the list-based Lean model gathers in O(rows x index length)
+MODEL_MAX = 20000
+
+
+def coldefs(case):
+    """name -> {'kind': 'num' | 'cat', 'off': k} for every data column of the case: a numerical column holds
+    rid + off, a categorical one 'k<rid>'.  Old cases (no 'coldefs') use the fixed names rid / c / y."""
+    d = case.get('coldefs')
+    if d is None:
+        d = {'rid': {'kind': 'num', 'off': 0}, 'c': {'kind': 'cat', 'off': 0}, 'y': {'kind': 'num', 'off': 1000}}
+        d = {k: v for k, v in d.items() if k in case['cols']}
+    return d
+
+
+def split_name(case):
+    return case.get('split_name', 's')
+
+
+def label_key(v):
+    """hashable, JSON-able identity of an index label as it comes back from `df.index.tolist()`"""
+    if hasattr(v, 'strftime'):
+        return v.strftime('%Y-%m-%d')
+    return v
 
 
 # --------------------------------------------------------------------------- python-list reference (oracle)
@@ -175,7 +199,7 @@ def label_codes(values):
 
 
 LABEL_KINDS = ['range', 'range', 'offset', 'step', 'permuted', 'strings', 'neg', 'float', 'dup_set_index',
-               'dup_concat', 'dup_iloc', 'reversed']
+               'dup_concat', 'dup_iloc', 'reversed', 'bigint', 'special_str', 'datetime']
 
 
 def gen_labels(rng, n):
@@ -202,6 +226,18 @@ def gen_labels(rng, n):
             rng.shuffle(vals)
     elif kind == 'float':
         vals = [i + .5 for i in range(n)]
+        rng.shuffle(vals)
+    elif kind == 'bigint':
+        # labels beyond float53 / int32, some of them small valid positions
+        vals = [rng.choice([2 ** 62, 2 ** 53, 2 ** 31, -2 ** 40]) + i if i % 3 else i for i in range(n)]
+        rng.shuffle(vals)
+    elif kind == 'special_str':
+        from harness import stress
+        pool = list(stress.SPECIAL_STR) + ['1', '2', 'Train', 'train', 'label', 'label_prev']
+        vals = [pool[i] if i < len(pool) else f'{pool[i % len(pool)]}#{i}' for i in range(n)]
+        rng.shuffle(vals)
+    elif kind == 'datetime':
+        vals = [f'{2001 + i // 336:04d}-{1 + (i // 28) % 12:02d}-{1 + i % 28:02d}' for i in range(n)]
         rng.shuffle(vals)
     elif kind == 'dup_set_index':
         m = max(1, n // 2)
@@ -263,9 +299,13 @@ def rnd_int_bound(rng, n):
     return rng.choice([None, None, 0, 1, n, n - 1, -1, -n, n + 2, -n - 2, rng.randint(-n - 1, n + 1)])
 
 
-def gen_index(rng, n, stats, allow_bad=True):
-    """an IndexSelectType value for a dataset of n rows"""
-    k = rng.choice(['int', 'slice', 'fslice', 'fslice', 'list', 'range', 'tensor', 'mask'])
+def gen_index(rng, n, stats, allow_bad=True, arg_size=None):
+    """an IndexSelectType value for a dataset of n rows.  `arg_size`: length of the index argument wanted for a
+    list / tensor / range index (the size ladder of harness/stress.py), None = the small default sizes."""
+    kinds = ['int', 'slice', 'fslice', 'fslice', 'list', 'range', 'tensor', 'mask']
+    if arg_size is not None:
+        kinds = ['list', 'tensor', 'tensor', 'range', 'mask']
+    k = rng.choice(kinds)
     bad = allow_bad and rng.random() < .08
     if k == 'int':
         if bad or n == 0:
@@ -294,19 +334,34 @@ def gen_index(rng, n, stats, allow_bad=True):
         step = rng.choice([0, -1]) if bad else rng.choice([None, None, None, None, 1, 2])
         return {'t': 'slice', 'a': a, 'b': b, 's': step, 'via': rng.choice(['getitem', 'getitem', 'index_select'])}
     if k in ('list', 'tensor'):
-        ln = rng.choice([0, 1, 2, 3, 4, 6, n])
+        ln = rng.choice([0, 1, 2, 3, 4, 6, n]) if arg_size is None else arg_size
         if n == 0:
             is_ = [rng.choice([0, -1, 1]) for _ in range(max(ln, 1))] if bad else []
         elif bad:
             is_ = [rng.randint(-n - 2, n + 1) for _ in range(max(ln, 1))]
             is_[rng.randrange(len(is_))] = rng.choice([n, -n - 1])
         else:
-            is_ = [rng.randint(-n, n - 1) for _ in range(ln)]
+            shape = rng.random() if ln > 12 else 1.
+            if shape < .2 and ln <= n:
+                is_ = rng.sample(range(n), ln)                       # distinct positions, shuffled
+            elif shape < .35:
+                is_ = sorted(rng.randint(-n, n - 1) for _ in range(ln))   # sorted with repeats and negatives
+            elif shape < .45:
+                is_ = [rng.choice([0, n - 1, -1, -n]) for _ in range(ln)]   # a handful of rows, many repeats
+            else:
+                is_ = [rng.randint(-n, n - 1) for _ in range(ln)]
         as_ = k if k == 'list' else rng.choice(['tensor', 'tensor', 'tensor32'])
-        return {'t': 'list', 'is': is_, 'as': as_}
+        return {'t': 'list', 'is': is_, 'as': as_, 'via': rng.choice(['getitem', 'getitem', 'index_select'])}
     if k == 'range':
         s = rng.choice([1, 1, 2, 3, -1])
-        if s > 0:
+        if arg_size is not None and n > 0:
+            # a range of (about) the wanted length inside the frame
+            s = rng.choice([1, 1, 2, -1])
+            ln = max(1, min(arg_size, (n + abs(s) - 1) // abs(s)))
+            lo = rng.randint(0, n - 1 - (ln - 1) * abs(s))
+            hi = lo + (ln - 1) * abs(s)
+            a, b = (lo, hi + 1) if s > 0 else (hi, lo - 1)     # range(hi, -1, -1) ends at position 0
+        elif s > 0:
             a, b = rng.randint(0, max(n, 1)), rng.randint(0, n + (2 if bad else 0))
         else:
             a, b = rng.randint(-1, n - 1 + (2 if bad else 0)), rng.randint(-1, max(n - 1, 0))
@@ -325,13 +380,81 @@ def torch_perm(seed, n):
     return torch.randperm(n).tolist()
 
 
-def gen_history(rng, stats):
-    n = rng.choice([0, 1, 2, 3, 4, 5, 5, 6, 6, 7, 8, 8, 10, 12])
-    cat = n > 0 and rng.random() < .6
-    target = 'y' if rng.random() < .8 else None
-    cols = ['rid'] + (['c'] if cat else []) + ([target] if target else [])
-    if rng.random() < .3:
-        rng.shuffle(cols)
+# column names that are substrings / prefixes / suffixes / case variants of each other (first entry: a natural
+# target name), sentinel look-alikes and names with separators / blanks
+NAME_FAMILIES = [
+    ['label', 'label_prev', 'Label', 'lab', 'prev_label', 'LABEL', 'labels', 'abel'],
+    ['y', 'year', 'Y', 'yy', 'y_hat', 'xy', 'y2'],
+    ['target', 'target_enc', 'Target', 'tar', 'get', 'targets', 'my_target'],
+    ['price', 'price_per_sqm', 'Price', 'pric', 'rice', 'price '],
+    ['sports', 'sportswear', 'Sports', 'sport', 'port'],
+    ['w', 'W', 'ww', 'w1', 'ow'],
+    ['Zeta', 'alpha', 'zeta', 'Alpha', 'Zeta_alpha', 'alphaZeta'],
+    ['-1', 'nan', 'None', '0', '', ' ', '<NA>', '1', '-1.0'],
+    ['a', 'a\x00', 'A', 'a|b', 'a,b', 'a b', 'b'],
+    ['s', 'split', 'ss', 'S', 'rid', 'c', 'is'],
+]
+
+
+def gen_columns(rng, n, confusable, wide=None):
+    """-> (cols, coldefs, target, split_name).  Every column is an injective function of the hidden row id.
+    `wide`: number of feature columns (names stem0, stem1, ... stem10 ...: prefixes of each other); needs n < 1000."""
+    if wide:
+        stem = rng.choice(['f', 'x_', 'col', 'label', ''])
+        names = [f'{stem}{j}' for j in range(wide)]
+        target = rng.choice([None, names[0], names[1], names[min(10, wide - 1)], names[-1], stem or 'y', stem + '_'])
+        if target is not None and target not in names:
+            names.insert(rng.randint(0, len(names)), target)
+        defs = {c: {'kind': 'num', 'off': (j + 1) * 1000} for j, c in enumerate(names)}
+        for c in rng.sample(names, min(3, len(names))):
+            if c != target and n > 0:
+                defs[c] = {'kind': 'cat', 'off': 0}
+        return names, defs, target, rng.choice(['s', stem + 'split', stem + str(wide)])
+    if not confusable:
+        cat = n > 0 and rng.random() < .6
+        target = 'y' if rng.random() < .8 else None
+        cols = ['rid'] + (['c'] if cat else []) + ([target] if target else [])
+        if rng.random() < .3:
+            rng.shuffle(cols)
+        defs = {'rid': {'kind': 'num', 'off': 0}, 'c': {'kind': 'cat', 'off': 0}, 'y': {'kind': 'num', 'off': 1000}}
+        return cols, {c: defs[c] for c in cols}, target, 's'
+    fam = list(rng.choice(NAME_FAMILIES))
+    k = rng.randint(2, min(5, len(fam)))
+    r = rng.random()
+    if r < .55:
+        names = [fam[0]] + rng.sample(fam[1:], k - 1)      # the family's base name is present ...
+        target = fam[0] if rng.random() < .75 else rng.choice(names)   # ... and usually is the target
+    else:
+        names = rng.sample(fam, k)
+        target = rng.choice(names) if rng.random() < .85 else None
+    rest = [x for x in fam if x not in names]
+    sname = rng.choice(rest) if rest and rng.random() < .5 else rng.choice(['s', 'split', '_split'])
+    while sname in names:
+        sname += '_'
+    rng.shuffle(names)
+    defs = {}
+    for j, c in enumerate(names):
+        kind = 'cat' if (c != target and n > 0 and rng.random() < .3) else 'num'
+        defs[c] = {'kind': kind, 'off': 0 if kind == 'cat' else (j + 1) * 100000}
+    return names, defs, target, sname
+
+
+def gen_history(rng, stats, level=0, scale=None):
+    """`scale`: None = decide here (a few percent of the histories), False = never, True = always."""
+    from harness import stress
+    if scale is None:
+        scale = rng.random() < (.02, .012, .004)[min(level, 2)]
+    big_arg = (not scale) and rng.random() < (.015, .008, .003)[min(level, 2)]
+    long_hist = (not scale) and rng.random() < .006
+    wide = None
+    if not scale and rng.random() < (.003, .002, .0008)[min(level, 2)]:
+        wide = stress.pick_size(rng, min(level, 1), 259 if level < 2 else 1027)     # number of columns
+    if scale:
+        cap = rng.choice([259, 259, 1027, 4099, 4099, 16387, 65539])
+        n = stress.pick_size(rng, level, cap)
+    else:
+        n = rng.choice([0, 1, 2, 3, 4, 5, 5, 6, 6, 7, 8, 8, 10, 12])
+    cols, defs, target, sname = gen_columns(rng, n, rng.random() < .3, wide)
     r = rng.random()
     ctor = 'ok' if r < .92 else ('no_split_col' if r < .96 else 'bad_value')
     split = gen_split(rng, n)
@@ -342,12 +465,13 @@ def gen_history(rng, stats):
             split[rng.randrange(n)] = rng.choice([3, 4, 5, 7])
     lab = gen_labels(rng, n)
     case = {'kind': 'hist', 'n': n, 'labels': lab['values'], 'label_kind': lab['kind'], 'cols': cols,
-            'target': target, 'split': split, 'ctor': ctor, 'ops': []}
-    case['split_dtype'] = rng.choice(['int64', 'int64', 'int8', 'float64', 'object'] +
-                                     (['bool'] if all(s <= 1 for s in split) else []))
+            'coldefs': defs, 'split_name': sname, 'target': target, 'split': split, 'ctor': ctor, 'ops': []}
+    case['split_dtype'] = rng.choice(['int64', 'int64', 'int8', 'float64', 'object', 'uint8', 'int32', 'float32',
+                                      'Int64', 'category'] + (['bool'] if all(s <= 1 for s in split) else []))
     pool = [Ref(range(n), label_codes(case['labels']), split, cols, target, ctor != 'no_split_col')]
     num = {'train': 0, 'val': 1, 'test': 2}
     ops = case['ops']
+    index_steps = []        # steps whose index object may be used again (aliasing)
 
     def push(op):
         ops.append(op)
@@ -358,24 +482,60 @@ def gen_history(rng, stats):
             return rng.randrange(max(0, len(pool) - 3), len(pool))
         return rng.randrange(len(pool))
 
+    def arg_size():
+        if scale and rng.random() < .5:
+            return stress.pick_size(rng, level, max(n, 17))
+        if big_arg and rng.random() < .6:
+            return stress.pick_size(rng, level, rng.choice([259, 259, 4099, 16387]))
+        return None
+
+    def col_select_op(src, d, legal_only=False):
+        feats = d.feat_cols()
+        others = [c for c in defs if c not in d.cols]        # names of the frame this dataset no longer has
+        r = rng.random()
+        form = 'str' if rng.random() < .45 else 'list'
+        if r < .8 and feats:
+            if form == 'str':
+                cs = [rng.choice(feats)]
+            else:
+                cs = rng.sample(feats, rng.randint(1, len(feats)) if len(feats) < 17 or rng.random() < .5 else
+                                rng.choice([x for x in (17, 33, 65, 129, 257, 513, 1025) if x <= len(feats)]))
+                if d.target and rng.random() < .3:
+                    cs.insert(rng.randint(0, len(cs)), d.target)
+        elif r < .9 and d.target and n > 0 and not legal_only:
+            cs = [d.target] if (form == 'str' or rng.random() < .5) else []   # no feature column left: materialize raises
+        else:
+            # a name the dataset does not have: the split column, a dropped column, a case variant, a prefix,
+            # an extension of an existing name
+            base = rng.choice(list(d.cols) or ['rid'])
+            unknown = [sname, 'nosuch', base.swapcase(), base[:-1], base + '_prev', base + ' '] + others
+            unknown = [u for u in unknown if u not in d.cols]
+            cs = [rng.choice(unknown)] + (feats[:1] if (form == 'list' and rng.random() < .5) else [])
+        if form == 'str' and len(cs) != 1:
+            form = 'list'
+        return {'op': 'col_select', 'src': src, 'cols': cs, 'form': form,
+                'via': rng.choice(['col_select', 'getitem']) if cs else 'col_select'}
+
+    def select_op(src, d, allow_bad=True):
+        if index_steps and rng.random() < .12:
+            # the very same index object again (on this or another dataset)
+            k0 = rng.choice(index_steps)
+            return {'op': 'select', 'src': src, 'ix': dict(ops[k0]['ix'], reuse=k0)}
+        ix = gen_index(rng, len(d), stats, allow_bad=allow_bad, arg_size=arg_size())
+        if ix['t'] in ('list', 'mask') and ix.get('as') != 'range':
+            index_steps.append(len(ops))
+        return {'op': 'select', 'src': src, 'ix': ix}
+
     # optional prefix before materialization (legal col_select, illegal everything else)
-    if rng.random() < .3:
+    if rng.random() < (.4 if not wide else .9):
         for _ in range(rng.choice([1, 1, 2, 3])):
             src = pick_src()
             d = pool[src]
-            k = rng.choice(['col_select', 'col_select', 'tensor_frame', 'select', 'shuffle', 'get_split', 'split'])
+            k = rng.choice(['col_select'] * 4 + ['tensor_frame', 'select', 'shuffle', 'get_split', 'split'])
+            if scale and k in ('select', 'shuffle'):
+                k = 'col_select'
             if k == 'col_select':
-                feats = d.feat_cols()
-                r = rng.random()
-                if r < .8 and feats:
-                    cs = rng.sample(feats, rng.randint(1, len(feats)))
-                    if target and rng.random() < .3:
-                        cs.insert(rng.randint(0, len(cs)), target)
-                elif r < .9 and target and n > 0:
-                    cs = [target] if rng.random() < .5 else []      # no feature column left: materialize raises
-                else:
-                    cs = [rng.choice(['s', 'nosuch'])] + (feats[:1] if rng.random() < .5 else [])
-                push({'op': 'col_select', 'src': src, 'cols': cs, 'via': rng.choice(['col_select', 'getitem'])})
+                push(col_select_op(src, d))
             elif k == 'select':
                 push({'op': 'select', 'src': src, 'ix': gen_index(rng, len(d), stats, allow_bad=False)})
             elif k == 'shuffle':
@@ -388,8 +548,20 @@ def gen_history(rng, stats):
     # materialize (almost always the newest dataset; sometimes an older one, sometimes nothing)
     if rng.random() < .96:
         push({'op': 'materialize', 'src': len(pool) - 1 if rng.random() < .7 else rng.randrange(len(pool))})
-    budget = rng.choice([1, 2, 3, 4, 5, 6, 7, 8, 8])
-    while budget > 0 and len(ops) < MAX_OPS + 4:
+    if wide:
+        budget = rng.choice([1, 2, 3])
+    elif scale:
+        budget = rng.choice([2, 3, 4, 5, 6]) if n <= 5000 else rng.choice([2, 3, 4])
+    elif long_hist:
+        budget = stress.pick_size(rng, 0, 35)          # the number of prior calls is a size too
+    else:
+        budget = rng.choice([1, 2, 3, 4, 5, 6, 7, 8, 8])
+    max_ops = (MAX_OPS + 4) if not long_hist else 80
+    weights = ['select'] * 6 + ['shuffle'] * 3 + ['get_split'] * 3 + ['split'] * 2 + \
+              ['split_mix', 'tensor_frame', 'materialize', 'col_select']
+    if scale:
+        weights = ['select'] * 4 + ['shuffle'] * 3 + ['get_split'] * 2 + ['split'] * 3 + ['split_mix'] * 2
+    while budget > 0 and len(ops) < max_ops:
         budget -= 1
         src = pick_src()
         if not pool[src].mat and rng.random() < .85:
@@ -401,22 +573,59 @@ def gen_history(rng, stats):
             if full:
                 src = rng.choice(full)
         d = pool[src]
-        k = rng.choice(['select'] * 6 + ['shuffle'] * 3 + ['get_split'] * 3 + ['split'] * 2 +
-                       ['tensor_frame', 'materialize', 'col_select'])
+        k = rng.choice(weights)
         if k == 'select':
-            push({'op': 'select', 'src': src, 'ix': gen_index(rng, len(d), stats)})
+            push(select_op(src, d))
         elif k == 'shuffle':
             seed = rng.randrange(2 ** 31)
             push({'op': 'shuffle', 'src': src, 'seed': seed, 'perm': torch_perm(seed, len(d))})
         elif k == 'get_split':
             push({'op': 'get_split', 'src': src,
                   'name': rng.choice(SPLIT_NAMES) if rng.random() < .95 else rng.choice(['foo', 'Train', ''])})
+        elif k == 'split_mix':
+            # split() and the three get_split() lookups on the SAME dataset, in any order
+            group = [{'op': 'split', 'src': src}] + [{'op': 'get_split', 'src': src, 'name': nm} for nm in SPLIT_NAMES]
+            rng.shuffle(group)
+            for o in group:
+                push(o)
         elif k == 'col_select':
-            feats = d.feat_cols() or ['rid']
-            push({'op': 'col_select', 'src': src, 'cols': rng.sample(feats, rng.randint(1, len(feats))),
-                  'via': rng.choice(['col_select', 'getitem'])})
+            push(col_select_op(src, d, legal_only=True))
         else:
             push({'op': k, 'src': src})
+    return case
+
+
+def ladder_history(rng, n):
+    """one fixed-shape history on a frame of n rows (random content): shuffle, split(), the three get_split(),
+    index arguments of length n (int32 tensor with repeats, bool mask, reversed range), a fractional slice, and
+    split() of a shuffled selection.  Confusable column names, non-default labels."""
+    stats = {}
+    cols, defs, target, sname = gen_columns(rng, n, True)
+    lab = gen_labels(rng, n)
+    split = [rng.randrange(3) for _ in range(n)]
+    case = {'kind': 'hist', 'n': n, 'labels': lab['values'], 'label_kind': lab['kind'], 'cols': cols,
+            'coldefs': defs, 'split_name': sname, 'target': target, 'split': split, 'ctor': 'ok',
+            'split_dtype': rng.choice(['int64', 'int8', 'float64', 'Int64']), 'ops': []}
+    seed = rng.randrange(2 ** 31)
+    frac = next((b for b in ({'f': [3, 10]}, {'f': [1, 4]}, {'f': [1, 2]}) if float_round_ok(b, n)), None)
+    case['ops'] = [
+        {'op': 'materialize', 'src': 0},
+        {'op': 'split', 'src': 0},                                                        # -> 1, 2, 3
+        {'op': 'get_split', 'src': 0, 'name': 'test'},                                    # -> 4
+        {'op': 'get_split', 'src': 0, 'name': 'train'},                                   # -> 5
+        {'op': 'get_split', 'src': 0, 'name': 'val'},                                     # -> 6
+        {'op': 'shuffle', 'src': 0, 'seed': seed, 'perm': torch_perm(seed, n)},           # -> 7
+        {'op': 'split', 'src': 7},                                                        # -> 8, 9, 10
+        {'op': 'select', 'src': 7, 'ix': {'t': 'list', 'is': [rng.randint(-n, n - 1) for _ in range(n)],
+                                          'as': 'tensor32'}},                             # -> 11
+        {'op': 'split', 'src': 11},                                                       # -> 12, 13, 14
+        {'op': 'select', 'src': 0, 'ix': {'t': 'mask', 'bs': [rng.random() < .5 for _ in range(n)],
+                                          'as': 'tensor'}},                               # -> 15
+        {'op': 'select', 'src': 7, 'ix': {'t': 'list', 'is': list(range(n - 1, -1, -1)), 'as': 'range',
+                                          'range': [n - 1, -1, -1]}},                     # -> 16
+        {'op': 'select', 'src': 16, 'ix': {'t': 'slice', 'a': frac, 'b': None, 's': None}},   # -> 17
+        {'op': 'get_split', 'src': 17, 'name': 'val'},
+    ]
     return case
 
 
@@ -458,10 +667,14 @@ def gen_ratio(rng):
     return list(rng.random().as_integer_ratio())
 
 
-def gen_split_case(rng, stats, nmax):
+def gen_split_case(rng, stats, nmax, level=0):
+    from harness import stress
+    big = rng.random() < (.04, .03, .01)[min(level, 2)]
     while True:
         n = rng.choice([0, 1, 2, 3, 5, 7, 10, 10, 20, 33, 100, rng.randint(0, nmax), rng.randint(0, nmax)])
         n = min(n, nmax)
+        if big:
+            n = stress.pick_size(rng, level, rng.choice([259, 4099, 4099, 65539]))
         it = rng.random() < .6
         rt = gen_ratio(rng)
         if not it and rng.random() < .8 and 0 < rt[0] < rt[1]:
@@ -486,29 +699,35 @@ def build_df(case):
     import numpy as np
     import pandas as pd
     n = case['n']
+    defs = coldefs(case)
+    sname = split_name(case)
     data = {}
-    for c in ['rid', 'c', 'y']:
-        if c not in case['cols']:
-            continue
-        if c == 'rid':
-            data[c] = np.arange(n, dtype=np.float64)
-        elif c == 'c':
-            data[c] = [f'k{i}' for i in range(n)]
+    for c in case['cols']:
+        d = defs[c]
+        if d['kind'] == 'num':
+            data[c] = d['off'] + np.arange(n, dtype=np.float64)
         else:
-            data[c] = 1000. + np.arange(n, dtype=np.float64)
+            data[c] = np.array([f'k{i}' for i in range(n)], dtype=object)
     sp = case['split']
     dt = case.get('split_dtype', 'int64')
     if dt == 'object':
-        data['s'] = pd.Series(list(sp), dtype=object)
+        data[sname] = pd.Series(list(sp), dtype=object).values
     elif dt == 'bool':
-        data['s'] = np.array([bool(v) for v in sp], dtype=bool)
+        data[sname] = np.array([bool(v) for v in sp], dtype=bool)
+    elif dt == 'Int64':
+        data[sname] = pd.array(list(sp), dtype='Int64')
+    elif dt == 'category':
+        data[sname] = pd.Categorical(list(sp))
     else:
-        data['s'] = np.array(sp, dtype=dt)
+        data[sname] = np.array(sp, dtype=dt)
     kind, vals = case.get('label_kind', 'range'), case['labels']
-    df = pd.DataFrame({k: (v if not isinstance(v, pd.Series) else v.values) for k, v in data.items()})
-    df = df[[c for c in case['cols']] + ['s']] if 's' in df.columns else df
+    df = pd.DataFrame(data)
+    assert list(df.columns) == list(case['cols']) + [sname]
     if dt == 'object':
-        df['s'] = df['s'].astype(object)
+        df[sname] = df[sname].astype(object)
+    for c in case['cols']:
+        if defs[c]['kind'] == 'cat':
+            df[c] = df[c].astype(object)
     if kind == 'range':
         pass
     elif kind == 'offset' and n > 0:
@@ -525,9 +744,13 @@ def build_df(case):
     elif kind == 'dup_iloc' and n > 0:
         skeleton = pd.DataFrame({'z': np.zeros(n)}).iloc[vals]
         df.index = skeleton.index
+    elif kind == 'datetime':
+        df.index = pd.to_datetime(list(vals), format='%Y-%m-%d')
+    elif kind == 'special_str':
+        df.index = pd.Index(list(vals), dtype=object)
     else:
         df.index = pd.Index(vals)
-    assert list(df.index) == list(vals), (kind, list(df.index), vals)
+    assert [label_key(v) for v in df.index.tolist()] == list(vals), (kind, list(df.index)[:20], vals[:20])
     return df
 
 
@@ -570,47 +793,103 @@ class Observer:
 
     def __init__(self, case, findings):
         self.codes = dict(zip(case['labels'], label_codes(case['labels'])))
+        self.defs = coldefs(case)
+        self.sname = split_name(case)
         self.findings = findings
+        self._cats = {}
 
     def _agree(self, lists, what, step):
         lists = [l for l in lists if l is not None]
         if not lists:
             return None
         if any(l != lists[0] for l in lists[1:]):
-            self.findings.append((step, what, lists[0], lists[1:]))
+            self.findings.append((step, what, lists[0][:50], [l[:50] for l in lists[1:]]))
         return lists[0]
 
+    def _cat_table(self, name, cats):
+        """category index -> row id of a categorical column (cached per statistics object)"""
+        import numpy as np
+        key = (name, id(cats))
+        hit = self._cats.get(key)
+        if hit is None or hit[0] is not cats:
+            hit = (cats, np.array([int(str(c)[1:]) for c in cats] + [-1], dtype=np.int64))
+            self._cats[key] = hit
+        return hit[1]
+
     def obs(self, ds, step):
-        import torch_frame
+        import numpy as np
+        import torch
         from torch_frame.data.stats import StatType
         df = ds.df
         per_col = []
-        if 'rid' in df.columns:
-            per_col.append([int(v) for v in df['rid'].tolist()])
-        if 'c' in df.columns:
-            per_col.append([int(str(v)[1:]) for v in df['c'].tolist()])
-        if 'y' in df.columns:
-            per_col.append([int(v) - 1000 for v in df['y'].tolist()])
+        small = len(df) <= 64
+        if small:
+            # one conversion of the whole (small) frame instead of one pandas lookup per column
+            dfcols = list(df.columns)
+            arr = df.to_numpy(dtype=object)
+        for name, d in self.defs.items():
+            if small:
+                if name not in dfcols:
+                    continue
+                vals = arr[:, dfcols.index(name)].tolist()
+                if d['kind'] == 'num':
+                    per_col.append([int(v) - d['off'] for v in vals])
+                else:
+                    per_col.append([int(str(v)[1:]) for v in vals])
+                continue
+            if name not in df.columns:
+                continue
+            if d['kind'] == 'num':
+                per_col.append((df[name].to_numpy(dtype=np.float64) - d['off']).astype(np.int64).tolist())
+            else:
+                per_col.append([int(str(v)[1:]) for v in df[name].tolist()])
         rids = self._agree(per_col, 'columns of derived.df disagree on the row ids', step)
         if rids is not None and len(rids) != len(ds):
             self.findings.append((step, 'len(dataset) differs from the rows of df', len(rids), len(ds)))
-        labels = [self.codes.get(v, -999) for v in df.index.tolist()]
+        codes = self.codes
+        labels = [codes.get(label_key(v), -999) for v in df.index.tolist()]
         out = {'df': rids, 'labels': labels, 'mat': bool(ds.is_materialized), 'cols': list(ds.col_to_stype.keys()),
                'tf': None}
+        if list(df.columns) not in (out['cols'], out['cols'] + [self.sname]):
+            self.findings.append((step, 'the columns of derived.df are not the keys of col_to_stype',
+                                  out['cols'], [str(c) for c in df.columns]))
         if ds.is_materialized:
             tf = ds.tensor_frame
             per_feat = []
+            seen = []
             for st, names in tf.col_names_dict.items():
                 feat = tf.feat_dict[st]
+                rows = feat.tolist() if small else None
                 for j, name in enumerate(names):
-                    col = feat[:, j].tolist()
-                    if name == 'rid':
-                        per_feat.append([int(v) for v in col])
-                    elif name == 'c':
-                        cats = ds.col_stats['c'][StatType.COUNT][0]
-                        per_feat.append([int(str(cats[int(v)])[1:]) if int(v) >= 0 else -1 for v in col])
-            if tf.y is not None:
-                per_feat.append([int(v) - 1000 for v in tf.y.tolist()])
+                    d = self.defs.get(name)
+                    if d is None:
+                        continue
+                    seen.append(name)
+                    if small:
+                        if d['kind'] == 'num':
+                            per_feat.append([int(r[j]) - d['off'] for r in rows])
+                        else:
+                            table = self._cat_table(name, ds.col_stats[name][StatType.COUNT][0])
+                            per_feat.append([int(table[r[j]]) for r in rows])
+                        continue
+                    col = feat[:, j]
+                    if d['kind'] == 'num':
+                        per_feat.append((col.to(dtype=torch.float64).numpy() - d['off'])
+                                        .astype(np.int64).tolist())
+                    else:
+                        table = self._cat_table(name, ds.col_stats[name][StatType.COUNT][0])
+                        per_feat.append(table[col.numpy()].tolist())
+            tgt = ds.target_col
+            if tf.y is not None and tgt in self.defs and small:
+                seen.append(tgt)
+                per_feat.append([int(v) - self.defs[tgt]['off'] for v in tf.y.tolist()])
+            elif tf.y is not None and tgt in self.defs:
+                seen.append(tgt)
+                per_feat.append((tf.y.to(dtype=torch.float64).numpy() - self.defs[tgt]['off'])
+                                .astype(np.int64).tolist())
+            if sorted(seen) != sorted(out['cols']):
+                self.findings.append((step, 'the columns of tensor_frame (features + target) are not the keys of '
+                                            'col_to_stype', sorted(out['cols']), sorted(seen)))
             t = self._agree(per_feat, 'features of derived.tensor_frame disagree on the row ids', step)
             if t is not None and len(t) != tf.num_rows:
                 self.findings.append((step, 'tensor_frame.num_rows differs from its features', len(t), tf.num_rows))
@@ -628,16 +907,18 @@ def run_real_history(case, watch='all'):
     with warnings.catch_warnings():
         warnings.simplefilter('ignore')
         df = build_df(case)
-        stypes = {'rid': torch_frame.numerical, 'c': torch_frame.categorical, 'y': torch_frame.numerical}
+        defs = coldefs(case)
+        stypes = {'num': torch_frame.numerical, 'cat': torch_frame.categorical}
         try:
-            d0 = Dataset(df, {c: stypes[c] for c in case['cols']}, target_col=case['target'],
-                         split_col=None if case['ctor'] == 'no_split_col' else 's')
+            d0 = Dataset(df, {c: stypes[defs[c]['kind']] for c in case['cols']}, target_col=case['target'],
+                         split_col=None if case['ctor'] == 'no_split_col' else split_name(case))
         except Exception:
             return {'ctor': 'raises'}, findings
         ob = Observer(case, findings)
         pool = [d0]
         snaps = [ob.obs(d0, -1)]
         steps = []
+        index_objs = {}       # step -> (the index object passed to the call, an identical twin never passed)
         for k, op in enumerate(case['ops']):
             if op['src'] >= len(pool):
                 # only possible when an earlier call deviated from the reference (raised / returned fewer datasets)
@@ -657,7 +938,12 @@ def run_real_history(case, watch='all'):
                     _ = d.col_stats
                     out = {'observed': ob.obs(d, k)['tf']}
                 elif kind == 'select':
-                    ix = to_py_index(op['ix'])
+                    reuse = op['ix'].get('reuse')
+                    if reuse is not None and reuse in index_objs:
+                        ix = index_objs[reuse][0]
+                    else:
+                        ix = to_py_index(op['ix'])
+                        index_objs[k] = (ix, to_py_index(op['ix']))
                     new = [d[ix] if op['ix'].get('via', 'getitem') == 'getitem' else d.index_select(ix)]
                 elif kind == 'shuffle':
                     torch.manual_seed(op['seed'])
@@ -672,10 +958,14 @@ def run_real_history(case, watch='all'):
                     new = list(d.split())
                 elif kind == 'col_select':
                     cs = list(op['cols'])
+                    form = op.get('form')
+                    if form is None:      # cases recorded before the form was explicit
+                        form = 'str' if (op.get('via') == 'getitem' and len(cs) == 1 and k % 2 == 0) else 'list'
+                    arg = cs[0] if form == 'str' else cs
                     if op.get('via') == 'getitem' and cs:
-                        new = [d[cs[0]] if len(cs) == 1 and k % 2 == 0 else d[cs]]
+                        new = [d[arg]]
                     else:
-                        new = [d.col_select(cs)]
+                        new = [d.col_select(arg)]
             except Exception:
                 out = 'raises'
                 new = []
@@ -691,14 +981,24 @@ def run_real_history(case, watch='all'):
                 now = ob.obs(pool[i], k)
                 if kind == 'materialize' and i == op['src'] and out != 'raises':
                     if (now['df'], now['labels'], now['cols']) != (old['df'], old['labels'], old['cols']):
-                        findings.append((k, f'materialize changed the DataFrame of dataset {i}', old, now))
+                        findings.append((k, f'materialize changed the DataFrame of dataset {i}', _short(old), _short(now)))
                 elif now != old:
-                    findings.append((k, f'{kind} on dataset {op["src"]} altered the existing dataset {i}', old, now))
+                    findings.append((k, f'{kind} on dataset {op["src"]} altered the existing dataset {i}',
+                                     _short(old), _short(now)))
                 snaps[i] = now
             for x in new:
                 pool.append(x)
                 snaps.append(ob.obs(x, k))
+        # the index objects handed to the calls are still what they were (inputs are not modified)
+        for k, (used, twin) in index_objs.items():
+            same = torch.equal(used, twin) if isinstance(used, torch.Tensor) else used == twin
+            if not same:
+                findings.append((k, 'the index argument was modified by the call', str(twin)[:200], str(used)[:200]))
         return {'ctor': 'ok', 'steps': steps}, findings
+
+
+def _short(o):
+    return {k: (v[:60] if isinstance(v, list) else v) for k, v in o.items()} if isinstance(o, dict) else o
 
 
 def numpy_perm(seed, n):
